@@ -21,6 +21,13 @@ package main
 //	    contract `writes-through(params)` is inferred to a fixed point and then
 //	    checked function by function against the callees' contracts.
 //
+//	//@ effects C12 : distinctinit <Type>.<field>
+//	    postcondition of the package initialiser, decided by reading it: every
+//	    store the initialiser of this package makes into field <field> of an
+//	    object of struct type <Type> stores a constant, and these constants are
+//	    pairwise different (a table of named constants such as the payload
+//	    type prefixes, whose entries key streams).  One obligation per store.
+//
 // Assumptions (reported): memory reachable from a function's parameters is not
 // package-level state unless it was derived from a package-level variable in
 // that function or handed in through a parameter recorded in the summaries
@@ -55,6 +62,8 @@ func (e *Engine) effectUnits(d EffectDirective, only func(string) bool) []*Unit 
 		return e.readonlyUnits(d, only)
 	case "noglobalwrites":
 		return e.globalWriteUnits(d, only)
+	case "distinctinit":
+		return e.distinctInitUnits(d, only)
 	}
 	e.fatalf("%s: unknown effects kind %q", d.Src, d.Kind)
 	return nil
@@ -844,4 +853,81 @@ func paramNames(f *ssa.Function, l labelSet) string {
 		}
 	}
 	return strings.Join(ns, ", ")
+}
+
+
+// distinctInitUnits: see the header (effects ... : distinctinit Type.field).
+func (e *Engine) distinctInitUnits(d EffectDirective, only func(string) bool) []*Unit {
+	parts := strings.SplitN(d.Prefix, ".", 2)
+	if len(parts) != 2 {
+		e.fatalf("%s: distinctinit <Type>.<field>", d.Src)
+	}
+	var initFn *ssa.Function
+	for _, p := range e.prog.AllPackages() {
+		if p.Pkg.Path() == d.PkgPath {
+			initFn = p.Func("init")
+		}
+	}
+	if initFn == nil {
+		e.fatalf("%s: package initialiser of %s not found", d.Src, d.PkgPath)
+	}
+	u := e.effectUnit(initFn, d)
+	if only != nil && !only(u.Name) {
+		return nil
+	}
+	type st struct {
+		pos token.Pos
+		val string
+		ok  bool
+	}
+	var stores []st
+	for _, b := range initFn.Blocks {
+		for _, in := range b.Instrs {
+			s, ok := in.(*ssa.Store)
+			if !ok {
+				continue
+			}
+			fa, ok := s.Addr.(*ssa.FieldAddr)
+			if !ok {
+				continue
+			}
+			pt, ok := fa.X.Type().Underlying().(*types.Pointer)
+			if !ok {
+				continue
+			}
+			named, ok := types.Unalias(pt.Elem()).(*types.Named)
+			if !ok || named.Obj().Name() != parts[0] || named.Obj().Pkg() == nil || named.Obj().Pkg().Path() != d.PkgPath {
+				continue
+			}
+			stt, ok := named.Underlying().(*types.Struct)
+			if !ok || fa.Field >= stt.NumFields() || stt.Field(fa.Field).Name() != parts[1] {
+				continue
+			}
+			c, isConst := s.Val.(*ssa.Const)
+			v := ""
+			if isConst && c.Value != nil {
+				v = c.Value.ExactString()
+			}
+			stores = append(stores, st{s.Pos(), v, isConst && c.Value != nil})
+		}
+	}
+	if len(stores) < 2 {
+		u.effectObl("init:"+d.Prefix+":table", e.posOf(initFn.Pos()), "the initialiser fills a table of "+d.Prefix, false, fmt.Sprintf("only %d stores into %s found in the package initialiser", len(stores), d.Prefix))
+		return []*Unit{u}
+	}
+	for i, a := range stores {
+		why := ""
+		okk := a.ok
+		if !a.ok {
+			why = "the stored value is not a constant"
+		}
+		for j, b := range stores {
+			if i != j && a.ok && b.ok && a.val == b.val {
+				okk = false
+				why = fmt.Sprintf("the same constant %s is stored at %s", a.val, e.posOf(b.pos))
+			}
+		}
+		u.effectObl(fmt.Sprintf("init:%s#%d", d.Prefix, i), e.posOf(a.pos), "the constant stored into "+d.Prefix+" here differs from every other one the initialiser stores into that field", okk, why)
+	}
+	return []*Unit{u}
 }
